@@ -139,7 +139,7 @@ Section Sim.
   Qed.
 
   Lemma err_prefix_ref pos s : err_prefix c pos s = ref_prefix c pos (hd_error (rstack s)).
-  Proof. unfold err_prefix, ref_prefix. destruct (rstack s); reflexivity. Qed.
+  Proof. unfold err_prefix, ref_prefix; cbn [rd rData rU rO rG rE]. destruct (rstack s); reflexivity. Qed.
 
   Lemma Sim_to_P s sc g m H R inv : Sim s sc g m H R inv -> SimP s m (pos_of d (g_off g)) R.
   Proof. intros S. constructor; try apply S. eapply Sim_pos; eauto. Qed.
